@@ -99,9 +99,28 @@ class Case:
                 ci = (step[5] if len(step) > 5 else 0) % self.nconn
                 sp = sps[ci]
                 seen = len(sp.frames)
+                if kind == "reconn":
+                    # the origin's connection goes away and comes back: the window belongs to the origin host, not to
+                    # a connection (RFC 6733 5.5.4: retransmission after failover)
+                    sp.close()
+                    h.settle()
+                    self.gen = getattr(self, "gen", 0) + 1
+                    sp = h.inbound(ip=f"10.1.0.{ci + 1}", port=51000 + 10 * ci + self.gen)
+                    h.settle()
+                    ce = 0xcf00 + 16 * ci + self.gen
+                    sp.send(M.cer(f"relay{ci + 1}.verif.example", self.REALM, auth=[4], hbh=1, e2e=ce))
+                    h.settle()
+                    sp.drain()
+                    self.record(f"relay{ci + 1}.verif.example", ce)
+                    sps[ci] = sp
+                    w.observe()
+                    self.run.cov["reconnects"] = self.run.cov.get("reconnects", 0) + 1
+                    self.trace.append((step, "reconnected"))
+                    continue
                 if kind == "req":
                     _, o, e, t, mode = step[:5]
-                    origin, e2e = ORIGINS[o], E2E[e]
+                    origin = ORIGINS[o] if o < 2 else f"relay{ci + 1}.verif.example"    # 2: the peer itself
+                    e2e = E2E[e]
                     self.hbh += 1
                     hbh = self.hbh
                     flags = 0xc0 | (0x10 if t else 0)
@@ -253,6 +272,7 @@ def run_shard(spec):
     if spec["kind"] == "exhaustive":
         # reduced alphabet for the exhaustive part: one origin varies in the last position only
         small = [a for a in alpha if a[1] == 0 and a[2] < 2] + [("req", 1, 0, 1, "now"), ("sub",), ("dwr",),
+                                                                ("reconn",), ("req", 2, 0, 0, "now"), ("req", 2, 0, 1, "now"),
                                                                 ("wd", 0, 0, 0), ("wd", 0, 0, 1), ("wd", 0, 1, 1)]
         i = 0
         for L in range(2, spec["length"] + 1):
@@ -260,7 +280,7 @@ def run_shard(spec):
                 i += 1
                 if i % spec["parts"] != spec["part"]:
                     continue
-                if L == spec["length"] and (i // spec["parts"]) % 6:
+                if L == spec["length"] and (i // spec["parts"]) % 12:
                     continue
                 for N in (1, 2):
                     run.one(N, seq)
@@ -276,9 +296,13 @@ def run_shard(spec):
                     s = list(rng.choice(alpha))
                     if rng.random() < 0.6:
                         s[3] = 1
+                    if rng.random() < 0.3:
+                        s[1] = 2          # the request originates at the peer itself
                     seq.append(tuple(s) + (rng.randrange(nconn),))
-                elif r < 0.82:
+                elif r < 0.78:
                     seq.append(("wd", rng.randrange(2), rng.randrange(3), int(rng.random() < 0.6), 0, rng.randrange(nconn)))
+                elif r < 0.84:
+                    seq.append(("reconn", 0, 0, 0, 0, rng.randrange(nconn)))
                 elif r < 0.92:
                     seq.append(("sub",))
                 else:
